@@ -109,7 +109,7 @@ impl BoxedUint {
 
     /// Create a new [`BoxedUint`] from the provided big endian hex string.
     pub fn from_be_hex(hex: &str, bits_precision: u32) -> CtOption<Self> {
-        let nlimbs = (bits_precision / Limb::BITS) as usize;
+        let nlimbs = bits_precision.div_ceil(Limb::BITS) as usize;
         let bytes = hex.as_bytes();
 
         assert!(
